@@ -21,6 +21,10 @@ type Printer struct {
 	Ctx *refsym.Context
 	B   strings.Builder
 	lastWasLong bool
+	// Raw substitutes the given text for the (unannotated) rendering of a value node (C07).
+	Raw map[*model.Value]string
+	// Tops records [start,end) offsets of every top-level value rendered.
+	Tops [][2]int
 	// UseSIDs lets the printer write $n for texts the current context defines.
 	UseSIDs bool
 	Err     error
@@ -532,6 +536,11 @@ func (p *Printer) bare(v *model.Value, inSexp bool) string {
 	// Two long strings that are adjacent tokens would concatenate into one value.
 	prevLong := p.lastWasLong
 	p.lastWasLong = false
+	if p.Raw != nil {
+		if r, ok := p.Raw[v]; ok {
+			return r
+		}
+	}
 	if v.Kind == model.String && !v.IsNull {
 		if !prevLong && len(v.Ann) == 0 && p.C.Flip("str:long") {
 			p.lastWasLong = true
@@ -727,12 +736,23 @@ func (p *Printer) AppendIVM() {
 
 func (p *Printer) AppendValue(v *model.Value) {
 	p.sep()
+	st := p.B.Len()
 	p.B.WriteString(p.Value(v, false))
+	p.Tops = append(p.Tops, [2]int{st, p.B.Len()})
 }
 
 // Print renders a whole stream. With c.Flip("txt:lst") a symbol table is declared and $n used.
 func Print(vals []*model.Value, c *choice.C) (string, error) {
 	p := NewPrinter(c)
+	if err := p.Stream(vals); err != nil {
+		return "", err
+	}
+	return p.B.String(), nil
+}
+
+// Stream renders a whole value stream into the printer.
+func (p *Printer) Stream(vals []*model.Value) error {
+	c := p.C
 	texts := model.SymbolTexts(vals)
 	if len(texts) > 0 && c.Flip("txt:lst") {
 		var slots []refsym.Slot
@@ -752,8 +772,5 @@ func Print(vals []*model.Value, c *choice.C) (string, error) {
 	if ws := p.optWS(); ws != "" {
 		p.B.WriteString(" " + ws)
 	}
-	if p.Err != nil {
-		return "", p.Err
-	}
-	return p.B.String(), nil
+	return p.Err
 }
